@@ -187,8 +187,7 @@ pub struct SlotInfo {
 }
 
 pub struct Machine {
-    io: IoLoop,
-    state: ConnectionState,
+    core: Option<(IoLoop, ConnectionState)>,
     pub stream: ScriptStream,
     ch0: Option<IoLoopHandle0>,
     handles: HashMap<String, IoLoopHandle>,
@@ -213,19 +212,36 @@ impl Machine {
         // the protocol header and the handshake frames have been written by now
         io.inner.outbuf.clear();
         Ok(Machine {
-            io,
-            state: ConnectionState::Steady(ch0_slot),
+            core: Some((io, ConnectionState::Steady(ch0_slot))),
             stream: ScriptStream::default(),
             ch0: Some(ch0_handle),
             handles: HashMap::new(),
         })
     }
 
+    fn io(&self) -> &IoLoop {
+        &self.core.as_ref().expect("I/O loop is gone").0
+    }
+
+    fn state(&self) -> &ConnectionState {
+        &self.core.as_ref().expect("I/O loop is gone").1
+    }
+
+    /// The I/O thread exits: the loop and the connection state are dropped.
+    pub fn kill(&mut self) {
+        self.core = None;
+    }
+
+    pub fn is_dead(&self) -> bool {
+        self.core.is_none()
+    }
+
     // ---- I/O-thread side --------------------------------------------------------------------
 
     /// `ConnectionState::process` on one inbound frame.
     pub fn process_frame(&mut self, frame: AMQPFrame) -> crate::Result<()> {
-        self.state.process(&mut self.io.inner, frame)
+        let (io, state) = self.core.as_mut().expect("I/O loop is gone");
+        state.process(&mut io.inner, frame)
     }
 
     /// `IoLoop::handle_steady_event` on a fabricated event.
@@ -237,8 +253,8 @@ impl Machine {
         if writable {
             ready |= Ready::writable();
         }
-        let Machine { io, state, stream, .. } = self;
-        io.handle_steady_event(stream, state, Event::new(ready, Token(token)))
+        let (io, state) = self.core.as_mut().expect("I/O loop is gone");
+        io.handle_steady_event(&mut self.stream, state, Event::new(ready, Token(token)))
     }
 
     pub fn token_stream() -> usize {
@@ -256,11 +272,11 @@ impl Machine {
 
     /// `IoLoop::is_connection_done`.
     pub fn is_done(&self) -> bool {
-        self.io.is_connection_done(&self.state)
+        self.io().is_connection_done(self.state())
     }
 
     pub fn state_name(&self) -> &'static str {
-        match self.state {
+        match self.state() {
             ConnectionState::Steady(_) => "Steady",
             ConnectionState::ServerClosing(_) => "ServerClosing",
             ConnectionState::ClientException => "ClientException",
@@ -270,33 +286,36 @@ impl Machine {
 
     /// `Inner::write_to_stream` against the scripted transport.
     pub fn write(&mut self) -> crate::Result<()> {
-        self.io.inner.write_to_stream(&mut self.stream)
+        let (io, _) = self.core.as_mut().expect("I/O loop is gone");
+        io.inner.write_to_stream(&mut self.stream)
     }
 
     pub fn outbuf(&self) -> Vec<u8> {
-        self.io.inner.outbuf[0..].to_vec()
+        self.io().inner.outbuf[0..].to_vec()
     }
 
     pub fn sealed(&self) -> bool {
-        self.io.inner.are_writes_sealed()
+        self.io().inner.are_writes_sealed()
     }
 
     pub fn channels_registered(&self) -> bool {
-        self.io.inner.channels_are_registered
+        self.io().inner.channels_are_registered
     }
 
     pub fn deregister_nonzero_channels(&mut self) -> crate::Result<()> {
-        self.io.inner.deregister_nonzero_channels(&self.io.poll)
+        let (io, _) = self.core.as_mut().expect("I/O loop is gone");
+        io.inner.deregister_nonzero_channels(&io.poll)
     }
 
     pub fn reregister_nonzero_channels(&mut self) -> crate::Result<()> {
-        self.io.inner.reregister_nonzero_channels(&self.io.poll)
+        let (io, _) = self.core.as_mut().expect("I/O loop is gone");
+        io.inner.reregister_nonzero_channels(&io.poll)
     }
 
     /// Poll the real `mio::Poll` with a zero timeout; the ready tokens, sorted.
     pub fn poll(&mut self) -> Vec<usize> {
         let mut events = Events::with_capacity(128);
-        let _ = self.io.poll.poll(&mut events, Some(Duration::from_millis(0)));
+        let _ = self.io().poll.poll(&mut events, Some(Duration::from_millis(0)));
         let mut v: Vec<usize> = events.iter().map(|e| e.token().0).collect();
         v.sort_unstable();
         v.dedup();
@@ -304,13 +323,13 @@ impl Machine {
     }
 
     pub fn open_ids(&self) -> Vec<u16> {
-        let mut ids: Vec<u16> = self.io.inner.chan_slots.iter().map(|(id, _)| *id).collect();
+        let mut ids: Vec<u16> = self.io().inner.chan_slots.iter().map(|(id, _)| *id).collect();
         ids.sort_unstable();
         ids
     }
 
     pub fn slot_info(&self, channel_id: u16) -> Option<SlotInfo> {
-        self.io.inner.chan_slots.get(channel_id).map(|slot| {
+        self.io().inner.chan_slots.get(channel_id).map(|slot| {
             let mut tags: Vec<String> = slot.consumers.keys().cloned().collect();
             tags.sort();
             SlotInfo {
@@ -322,7 +341,7 @@ impl Machine {
     }
 
     pub fn has_blocked_listener(&self) -> bool {
-        match &self.state {
+        match self.state() {
             ConnectionState::Steady(ch0) => ch0.blocked_tx.is_some(),
             _ => false,
         }
